@@ -300,6 +300,44 @@ def extract_skeletons(repo):
     return out
 
 
+def extract_rebuild_items(repo):
+    """In SQLiteAlterTableSQLResult.to_sql: which alter-table item ops set needs_rebuild, which
+    do not.  Walks the `if op == 'X': ... elif ...` chain of the first loop."""
+    tree = ast.parse(_src(repo, 'django_evolution/db/sqlite3.py'))
+    cls = _find_class(tree, 'SQLiteAlterTableSQLResult')
+    fn = _find_func(cls, 'to_sql')
+    rebuild, other = [], []
+
+    def sets_rebuild(body):
+        for n in body:
+            for sub in ast.walk(n):
+                if isinstance(sub, ast.Assign) and any(isinstance(t, ast.Name) and t.id == 'needs_rebuild'
+                                                       for t in sub.targets):
+                    if isinstance(sub.value, ast.Constant) and sub.value.value is True:
+                        return True
+        return False
+
+    def walk_if(node):
+        t = node.test
+        if (isinstance(t, ast.Compare) and isinstance(t.left, ast.Name) and t.left.id == 'op' and
+                len(t.comparators) == 1 and isinstance(t.comparators[0], ast.Constant)):
+            (rebuild if sets_rebuild(node.body) else other).append(t.comparators[0].value)
+            if len(node.orelse) == 1 and isinstance(node.orelse[0], ast.If):
+                walk_if(node.orelse[0])
+            return True
+        return False
+    found = False
+    for n in ast.walk(fn):
+        if isinstance(n, ast.For) and isinstance(n.iter, ast.Attribute) and n.iter.attr == 'alter_table':
+            for st in n.body:
+                if isinstance(st, ast.If) and walk_if(st):
+                    found = True
+            break
+    if not found or not rebuild:
+        raise ExtractError('needs_rebuild chain not found in SQLiteAlterTableSQLResult.to_sql')
+    return rebuild, other
+
+
 def regenerate(repo, outdir):
     os.makedirs(outdir, exist_ok=True)
     flags = {}
@@ -309,6 +347,13 @@ def regenerate(repo, outdir):
     flags['mergeable_ops'] = mergeable
     parts.append('/-- `BaseEvolutionOperations.mergeable_ops` (django_evolution/db/common.py) -/')
     parts.append('def mergeableOps : List String := ' + lean_list(lean_str(o) for o in mergeable))
+    rebuild, other = extract_rebuild_items(repo)
+    flags['rebuild_items'] = rebuild
+    parts.append('')
+    parts.append('/-- alter-table item ops for which `SQLiteAlterTableSQLResult.to_sql` sets `needs_rebuild` -/')
+    parts.append('def rebuildItems : List String := ' + lean_list(lean_str(o) for o in rebuild))
+    parts.append('/-- item ops it handles without a rebuild -/')
+    parts.append('def nonRebuildItems : List String := ' + lean_list(lean_str(o) for o in other))
     defaults, nonlit = extract_attr_defaults(repo)
     flags['attr_defaults_nonliteral'] = nonlit
     parts.append('')
